@@ -9,6 +9,14 @@ import progs
 from common import HarnessError, VERIF, eval_cases, parse_coq_list_of_nat, run_impl_parallel
 
 
+class ObservationFailure(Exception):
+    """observing a tensor (reading .grad) raised inside the implementation: a violation in itself"""
+
+    def __init__(self, case, errors):
+        Exception.__init__(self, errors[0])
+        self.case, self.errors = case, errors
+
+
 def chunks(xs, n):
     return [xs[i:i + n] for i in range(0, len(xs), n)]
 
@@ -21,9 +29,11 @@ def run_impl_cases(cases, jobs=16, script="prog_impl.py"):
     out = []
     for r in res:
         out.extend(r["results"])
-    for r in out:
+    for c, r in zip(cases, out):
         if "harness_error" in r:
             raise HarnessError("impl runner: " + r["harness_error"])
+        if r.get("observe_errors"):
+            raise ObservationFailure(c, r["observe_errors"])
     return out
 
 
